@@ -239,6 +239,29 @@ pub fn emit_spec(s: &Spec, extra_container: &str, magic_fields: &str, magic_obse
                     ));
                 }
             }
+            // a receiver with magic fields and a container-level fallback: ordinary fields get marker values
+            // as above, magic fields decoys (the input's parts must win)
+            if !s.magic.is_empty() && (s.container.default != Dflt::None || s.container.from_ident) {
+                let magic_inits: String = s.magic.iter().map(|m| format!("{}: ::vmodel::val::Decoy::decoy(), ", m.name)).collect();
+                let inits = fs
+                    .iter()
+                    .enumerate()
+                    .map(|(j, f)| format!("{}: ::vmodel::val::Marker::marker(seed.wrapping_mul(31).wrapping_add({}))", f.rust_name, j))
+                    .collect::<Vec<_>>()
+                    .join(", ");
+                out.push_str(&format!(
+                    "#[allow(dead_code)] impl {n} {{ fn mk(seed: u32) -> Self {{ let _ = seed; {n} {{ {mi}{inits} }} }}\n  fn cdflt() -> Self {{ {n}::mk(2000) }} }}\nimpl Default for {n} {{ fn default() -> Self {{ {n}::mk(1000) }} }}\n",
+                    n = name,
+                    mi = magic_inits,
+                    inits = inits
+                ));
+                if s.container.from_ident {
+                    out.push_str(&format!(
+                        "impl From<::darling::export::syn::Ident> for {n} {{ fn from(i: ::darling::export::syn::Ident) -> Self {{ {n}::mk(6000 + i.to_string().len() as u32) }} }}\n",
+                        n = name
+                    ));
+                }
+            }
             out.push_str(&format!(
                 "impl ::vmodel::val::Observe for {n} {{ fn observe(&self) -> ::vmodel::val::Val {{ ::vmodel::val::Val::Struct({n:?}.to_string(), vec![{m}{f}]) }} }}\n",
                 n = name,
@@ -479,6 +502,21 @@ pub fn c20_extras(first_id: usize, names: &[&str]) -> Vec<(usize, String)> {
         out.push((id, format!("#[derive(::darling::{tr})]\n{attrs}pub struct AC{id} {{\n{f}}}\n", tr = tr, attrs = attrs, id = id, f = conv)));
         id += 1;
     }
+    // map / and_then whose input type differs from the field's type (the parsed type is then the
+    // function's parameter type), without and with `default`, and inside a struct variant
+    for tr in traits.iter() {
+        let attrs = if *tr == "FromMeta" { "" } else { "#[darling(attributes(ata))]\n" };
+        out.push((id, format!(
+            "#[derive(::darling::{tr})]\n{attrs}pub struct MT{id} {{\n    #[darling(and_then = \"MT{id}::parse_port\")] pub port: u16,\n    #[darling(map = \"MT{id}::wrap\")] pub wrapped: ::core::option::Option<::std::string::String>,\n    #[darling(default, and_then = \"MT{id}::len_of\")] pub n: usize,\n    #[darling(default, map = \"MT{id}::widen\")] pub wide: u64,\n}}\nimpl MT{id} {{\n    fn parse_port(s: ::std::string::String) -> ::darling::Result<u16> {{ s.parse().map_err(|_| ::darling::Error::custom(\"port\")) }}\n    fn wrap(s: ::std::string::String) -> ::core::option::Option<::std::string::String> {{ ::core::option::Option::Some(s) }}\n    fn len_of(s: ::std::string::String) -> ::darling::Result<usize> {{ ::darling::export::Ok(s.len()) }}\n    fn widen(v: u8) -> u64 {{ v as u64 }}\n}}\n",
+            tr = tr, attrs = attrs, id = id
+        )));
+        id += 1;
+    }
+    out.push((id, format!(
+        "#[derive(::darling::FromMeta)]\npub enum MV{id} {{ Unit, St {{ #[darling(and_then = \"mv{id}_port\")] port: u16, #[darling(map = \"mv{id}_widen\")] wide: u64 }} }}\nfn mv{id}_port(s: ::std::string::String) -> ::darling::Result<u16> {{ s.parse().map_err(|_| ::darling::Error::custom(\"port\")) }}\nfn mv{id}_widen(v: u8) -> u64 {{ v as u64 }}\n",
+        id = id
+    )));
+    id += 1;
     // hostile names inside struct variants
     let vfields: String = pool.iter().take(12).map(|nm| format!("{}: u8, ", nm)).collect();
     let vmulti: String = pool.iter().skip(12).take(12).map(|nm| format!("#[darling(multiple)] {}: ::std::vec::Vec<u8>, ", nm)).collect();
